@@ -6,6 +6,7 @@ import (
 	"io"
 	"math"
 	"net"
+	"os"
 	"sync"
 	"time"
 
@@ -111,11 +112,33 @@ func (m *mangler) Read(b []byte) (int, error) {
 // net.Conn mangler for TCP
 type connMangler struct {
 	net.Conn
-	mu sync.Mutex
-	f  func([]byte) []byte
+	mu      sync.Mutex
+	f       func([]byte) []byte
+	hold    bool   // withhold the next reply (the client sees a timeout) ...
+	stashed []byte // ... and hand it over on the following read (a late reply)
 }
 
 func (m *connMangler) Read(b []byte) (int, error) {
+	m.mu.Lock()
+	if m.stashed != nil {
+		n := copy(b, m.stashed)
+		m.stashed = nil
+		m.mu.Unlock()
+		return n, nil
+	}
+	hold := m.hold
+	m.hold = false
+	m.mu.Unlock()
+	if hold {
+		n, err := m.Conn.Read(b)
+		if err == nil {
+			m.mu.Lock()
+			m.stashed = append([]byte{}, b[:n]...)
+			m.mu.Unlock()
+			return 0, os.ErrDeadlineExceeded
+		}
+		return n, err
+	}
 	n, err := m.Conn.Read(b)
 	m.mu.Lock()
 	f := m.f
@@ -136,6 +159,7 @@ type mbLink struct {
 	model  *mbModel
 	unit   byte
 	setM   func(func([]byte) []byte)
+	setHold func()
 	errs   *int64
 	mu     *sync.Mutex
 	srvErr *[]string
@@ -157,6 +181,7 @@ func newMbLink(r *vlib.R, kind string, spec mbMapSpec, unit byte) *mbLink {
 		c1, c2 := net.Pipe()
 		m := &connMangler{Conn: c1}
 		l.setM = func(f func([]byte) []byte) { m.mu.Lock(); m.f = f; m.mu.Unlock() }
+		l.setHold = func() { m.mu.Lock(); m.hold = true; m.mu.Unlock() }
 		ct = modbus.NewTCP(m, 150*time.Millisecond, modbus.TransportClient)
 		st = modbus.NewTCP(c2, 150*time.Millisecond, modbus.TransportServer)
 	}
@@ -202,7 +227,7 @@ var c19Maps = []mbMapSpec{
 
 func runC19(tier string, _ []string) int {
 	c := vlib.NewCtx("C19", tier, "exploration")
-	c.SetRule("real modbus.Client <-> real modbus.Server.Listen over (a) RTU framing on a packet-preserving in-memory duplex and (b) TCP framing on net.Pipe; 4 register maps with PRNG contents; every client method (ReadCoils, ReadDiscreteInputs, ReadHoldingRegs, ReadInputRegs, WriteSingleCoil, WriteSingleReg) x addresses (map edges, unmapped, 0xFFFF) x counts 1..largest fitting the client's 200-byte frame (success required, values and number of values compared with the server's registers) and beyond up to the protocol maximum on fresh pairs (error or correct values, never wrong ones) x unit ids; write then read back through the client and directly from the register file; a man-in-the-middle alters responses: 1-bit / 2-bit / <=16-bit-burst CRC damage (RTU), truncation at every length, wrong transaction id (TCP) => the call must fail; 70000 consecutive TCP transactions (id wrap); conversions: all 2^16 register values, sampled 32-bit patterns incl. NaNs, both word orders, bit-exact in both directions. distinct = (transport, method, count class, outcome)")
+	c.SetRule("real modbus.Client <-> real modbus.Server.Listen over (a) RTU framing on a packet-preserving in-memory duplex and (b) TCP framing on net.Pipe; 4 register maps with PRNG contents; every client method (ReadCoils, ReadDiscreteInputs, ReadHoldingRegs, ReadInputRegs, WriteSingleCoil, WriteSingleReg) x addresses (map edges, unmapped, 0xFFFF) x counts 1..largest fitting the client's 200-byte frame (success required, values and number of values compared with the server's registers) and beyond up to the protocol maximum on fresh pairs (error or correct values, never wrong ones) x unit ids; write then read back through the client and directly from the register file; a man-in-the-middle alters responses: 1-bit / 2-bit / <=16-bit-burst CRC damage (RTU), truncation at every length, wrong transaction id (TCP) => the call must fail; a withheld reply delivered late (TCP) must not answer the next request; 70000 consecutive TCP transactions (id wrap); conversions: all 2^16 register values, sampled 32-bit patterns incl. NaNs, both word orders, bit-exact in both directions. distinct = (transport, method, count class, outcome)")
 	c.Assume("the in-memory duplex delivers whole packets (as respreader does on a serial line); reads time out after 150 ms")
 	wd := c.NewWatchdog()
 	nPairs := c.N(24, 400)
@@ -237,6 +262,32 @@ func runC19(tier string, _ []string) int {
 			return a & 0xffff
 		}
 		for k := 0; k < callsPer; k++ {
+			if kind == "tcp" && k%40 == 20 {
+				// a reply that arrives after the client gave up must not be taken for the answer to the next request
+				var mapped []int
+				for a := range l.model.regs {
+					mapped = append(mapped, int(a))
+				}
+				if len(mapped) >= 2 {
+					a1, a2 := mapped[r.Intn(len(mapped))], mapped[r.Intn(len(mapped))]
+					_ = l.regs.WriteReg(a1, uint16(0x1100+k))
+					_ = l.regs.WriteReg(a2, uint16(0x2200+k))
+					l.model.regs[uint16(a1)], l.model.regs[uint16(a2)] = uint16(0x1100+k), uint16(0x2200+k)
+					l.setHold()
+					_, err1 := l.client.ReadHoldingRegs(unit, uint16(a1), 1)
+					v2, err2 := l.client.ReadHoldingRegs(unit, uint16(a2), 1)
+					c.Eval(2)
+					wit := map[string]any{"pair": pi, "step": k, "transport": kind, "first_addr": a1, "second_addr": a2, "first_err": fmt.Sprint(err1), "second_err": fmt.Sprint(err2), "second_values": v2}
+					if err1 == nil {
+						c.Violate("modbus-e2e:withheld-reply-succeeded", "a read whose reply was withheld returned success", wit)
+					} else if err2 == nil && a1 != a2 && (len(v2) != 1 || v2[0] != uint16(0x2200+k)) {
+						c.Violate("modbus-e2e:late-reply-accepted", fmt.Sprintf("the late reply to an abandoned request (register %d) was returned as the answer to the next request (register %d): %v", a1, a2, v2), wit)
+					}
+					c.Distinct(fmt.Sprintf("tcp late-reply second=%v", err2 == nil))
+					c.Count("late_reply_probes", 1)
+					fresh()
+				}
+			}
 			method := r.Intn(6)
 			name := []string{"ReadCoils", "ReadDiscreteInputs", "ReadHoldingRegs", "ReadInputRegs", "WriteSingleCoil", "WriteSingleReg"}[method]
 			coil := method <= 1 || method == 4
